@@ -144,6 +144,25 @@ example : pavSeq [([0, 1], 3), ([2], 2), ([0], 1)] freshCoefs [1, 2, 1]
     = [.ok [Slot.cand 0], .ok [Slot.cand 0, Slot.cand 2], .ok [Slot.cand 0]] := by decide +kernel
 example : WF [([0, 1], 3), ([2], 2), ([0], 1)] := by decide +kernel
 
+/-- the coefficients are the exact rationals `H_k = 1 + 1/2 + … + 1/k` (the Python expression
+    `sum(Fraction(1, i + 1) for i in range(k))`) -/
+theorem harmonic_eq_sum (k : Nat) :
+    harmonic k = ((List.range k).map (fun i => (1 : Rat) / (((i + 1 : Nat)) : Rat))).sum := by
+  induction k with
+  | zero => rfl
+  | succ k ih => rw [List.range_succ, List.map_append, List.sum_append, ← ih]; simp [harmonic]
+
+/-- **The PAV coefficient cache holds the exact harmonic numbers.**  A fresh instance satisfies the invariant, every
+    extension (for any `n`, from any valid state) preserves it and reaches index `n`, so during every call
+    `self._coefs[k]` is exactly the rational `H_k` for all `k ≤ n_seats` — never a float, never an approximation. -/
+theorem pav_coefs_exact (coefs : List Rat) (hc : CoefsOK coefs) (n : Nat) :
+    CoefsOK freshCoefs ∧ CoefsOK (extendCoefs coefs n) ∧
+    ∀ k, k ≤ n → coefAt (extendCoefs coefs n) k = .ok (harmonic k) := by
+  obtain ⟨hok, hlen⟩ := extendCoefs_ok hc n
+  exact ⟨freshCoefs_ok, hok, fun k hk => coefAt_ok hok (by omega)⟩
+
+example : extendCoefs freshCoefs 4 = [0, 1, 3 / 2, 11 / 6, 25 / 12] := by decide +kernel
+
 /-! ### Justified representation -/
 
 /-- **PAV committees satisfy justified representation** (core form).  `V` votes, `n ≥ 1` seats, non-negative weights:
